@@ -1,16 +1,247 @@
-import PPLV.COTree.RebSpec
+import PPLV.COTree.ProofsRebCompact
+import PPLV.COTree.ProofsRebRedist
+import PPLV.COTree.ProofsRebWalk
+import PPLV.COTree.ProofsRebRoot
+import PPLV.COTree.ProofsRebFill
+import PPLV.COTree.ProofsRebBigger
+import PPLV.COTree.ProofsRebSearch
+import PPLV.COTree.ProofsRebSink
+import PPLV.COTree.ProofsRebFinal
+import PPLV.COTree.ProofsRebIns2
+import PPLV.COTree.ProofsRebEraTop
+import PPLV.COTree.ProofsRebBridge
+import PPLV.COTree.ProofsBisect
 
 /-!
-# C16 stage 2 — the rebalancing machinery of `CO_Tree` (placeholder: filled in below as the
-component proofs arrive)
+# C16 stage 2 — the rebalancing machinery of `CO_Tree` keeps the tree an ordered map
+
+Model: `PPLV/COTree/Rebalance.lean` — code-shaped transliteration of `src/CO_Tree.cc`
+(`rebalance`, `compact_elements_in_the_rightmost_end`, `redistribute_elements_in_subtree`,
+`rebuild_bigger_tree`, `move_data_from`, `insert_precise(_aux)`, `erase`, `go_down_searching_key`),
+`CO_Tree_inlines.hh` (`tree_iterator`, `rebuild_smaller_tree`, `insert`, `erase(key)`) and
+`CO_Tree_templates.hh` (`CO_Tree(Iterator, n)`) over the real layout: `indexes[0 .. reserved_size+1]`
+with `unused_index` holes and the two markers, slot `i` = node of the complete binary tree in
+in-order numbering, `offset = i & -i`.
+
+The statements (`CompactSpec`, `RedistSpec`, … — each a closed `Prop` quantified over ALL trees,
+sizes, keys) are spelled out in `PPLV/COTree/RebSpec.lean`; the theorems here say they hold.
+Every loop of the C++ text is a recursion on its own counter or on explicit fuel with `none` on
+exhaustion; all results below have the form `… = some …`, i.e. TERMINATION within the fuel
+(`2·n` stack steps for `redistribute`, `6·n+1` for the two filling loops, `max_depth` for the
+descents and the sinking hole, the depth of the start node for the walk of `rebalance`) is part
+of each theorem.
 -/
 namespace C16
-open PPLV.COTree
+open PPLV.COTree PPLV.COTree.Tree
 
-/-- slots `_ 10 _ 20 _ 30 _` of a 7-slot tree, keys 10, 20, 30 -/
+/-! ## 1. compaction and redistribution keep the sequence and touch nothing outside -/
+
+/-- **`compact_elements_in_the_rightmost_end`** (CO_Tree.cc:973) on any slot segment `F … L`
+holding `n` elements (the new pair included when `add`): afterwards the used slots are the block
+`(fu, L]`, they list the same pairs in the same order with the new pair merged at its sorted
+position — or, when the code's `last == first_unused` shortcut leaves it to `redistribute`, the
+old pairs only and `fu = L - (n-1)`; the slots `F … fu` are free; no slot outside `F … L` and no
+field is written. -/
+theorem compact_preserves : CompactSpec := compactSpec
+
+/-- **`redistribute_elements_in_subtree`** (CO_Tree.cc:1062) on the subtree rooted at `i`
+(`offset o`), fed with the compacted block `[u, L]` and — when `pend` — the new pair: the stack
+loop ends within `2·n` steps with `add_element == false`, the subtree lists exactly the block with
+the pair at its sorted position, laid out by the half/half rule (`Balanced`), and no slot outside
+the subtree and no field is written. -/
+theorem redistribute_preserves : RedistSpec := redistSpec
+
+/-- **half/half split**: in a subtree redistributed with `n ≠ 0` elements the root is used, the
+left subtree holds `(n+1)/2 - 1` and the right one `n - (n+1)/2` elements (the code's
+`half = (top_n + 1) / 2`): the two counts differ by at most one and add up to `n` with the root. -/
+theorem redistribute_balanced {t : Tree} {h i n : Nat} (hb : t.Balanced (h + 2) i n) (hn : n ≠ 0)
+    (hi : 2 ^ (h + 1) ≤ i) :
+    t.countRange (i - (2 ^ (h + 1) - 1)) i = (n + 1) / 2 - 1 ∧
+    t.countRange (i + 1) (i + 2 ^ (h + 1)) = n - (n + 1) / 2 ∧
+    t.countRange (i - (2 ^ (h + 1) - 1)) i ≤ t.countRange (i + 1) (i + 2 ^ (h + 1)) ∧
+    t.countRange (i + 1) (i + 2 ^ (h + 1)) ≤ t.countRange (i - (2 ^ (h + 1) - 1)) i + 1 ∧
+    t.countRange (i - (2 ^ (h + 1) - 1)) i + 1 + t.countRange (i + 1) (i + 2 ^ (h + 1)) = n :=
+  balanced_sibling_diff hb hn hi
+
+/-- a `Balanced` subtree holds exactly its `n` elements -/
+theorem balanced_count {t : Tree} {h i n : Nat} (hb : t.Balanced (h + 1) i n) (hi : 2 ^ h ≤ i) :
+    t.countRange (i - (2 ^ h - 1)) (i + 2 ^ h) = n := Tree.Balanced.count hb hi
+
+/-- what the split guarantees one level down: `n` elements fit the `2^(h+1) - 1` slots of a
+subtree ⇒ each child's share fits its `2^h - 1` slots (so the recursion never reaches a leaf
+with two elements), and a subtree at most `pct` % full (`pct ≤ 100`) has children whose element
+count exceeds `pct` % of their slots by less than one element. -/
+theorem redistribute_fits (n h pct : Nat) (hfit : n ≤ 2 ^ (h + 1) - 1) :
+    (n + 1) / 2 - 1 ≤ 2 ^ h - 1 ∧ n - (n + 1) / 2 ≤ 2 ^ h - 1 ∧
+    (pct ≤ 100 → 100 * n ≤ pct * (2 ^ (h + 1) - 1) →
+      100 * ((n + 1) / 2 - 1) ≤ pct * (2 ^ h - 1) ∧ 100 * (n - (n + 1) / 2) ≤ pct * (2 ^ h - 1) + 100) := by
+  have hp : 2 ^ (h + 1) = 2 * 2 ^ h := by rw [Nat.pow_succ]; omega
+  have h1 : 1 ≤ 2 ^ h := Nat.one_le_two_pow
+  rw [hp] at hfit
+  refine ⟨by omega, by omega, fun hpct hd => ?_⟩
+  rw [hp] at hd
+  generalize 2 ^ h = P at *
+  have e1 : pct * (2 * P - 1) = 2 * (pct * P) - pct := by
+    rw [Nat.mul_sub, Nat.mul_one, ← Nat.mul_assoc, Nat.mul_comm pct 2, Nat.mul_assoc]
+  have e2 : pct * (P - 1) = pct * P - pct := by rw [Nat.mul_sub, Nat.mul_one]
+  have h3 : pct ≤ pct * P := Nat.le_mul_of_pos_right _ h1
+  rw [e1] at hd; rw [e2]
+  constructor <;> omega
+
+/-- a whole tree in the half/half layout is up-closed (an unused node roots an empty subtree) -/
+theorem balanced_up_closed : BalancedUpClosedSpec := balancedUpClosedSpec
+
+/-! ## 2. the walk of `rebalance` and its thresholds -/
+
+/-- the `while` condition of `rebalance` (CO_Tree.cc:906), with the integer percent arithmetic
+of the code: at `itr_depth_minus_1 = d` in a tree of `max_depth = md` the subtree with `n` elements
+in `R` slots is rebalanced one level higher iff `100·n > (91 + d·9/(md-1))·R` or
+`100·n < (38 - d·37/(md-1))·R` (`/` = integer division). -/
+theorem rebalance_thresholds (md n R d : Nat) :
+    rebalanceCond md n R d = true ↔
+      ((91 + d * 9 / (md - 1)) * R < 100 * n ∨ 100 * n < (38 - d * 37 / (md - 1)) * R) := by
+  unfold rebalanceCond isGreaterThanRatio isLessThanRatio maxDensityPercent minDensityPercent
+    minLeafDensityPercent
+  rw [Bool.or_eq_true, decide_eq_true_eq, decide_eq_true_eq]
+
+/-- **the walk terminates at the latest at the root**: started at a node all of whose proper
+ancestors are used, in a tree whose root is within the depth-1 thresholds (38 % … 91 %), the loop
+never asks for the parent of the root; it stops at the FIRST ancestor-or-self `(j, oj)` whose
+density is within the thresholds of its depth, with `n` = elements of that subtree + `extra`
+(1 for an insertion), and `1 ≤ n ≤ 2·oj - 1` (what `compact`/`redistribute` need). -/
+theorem rebalance_walk : WalkSpecA := walkSpecA
+
+/-- the hypothesis "the proper ancestors are used" cannot be dropped: `++subtree_size` counts the
+parent slot unconditionally (the C++ only asserts `itr.index() != unused_index`), and on an array
+that satisfies everything `OK()` tests but has an unused inner node the loop walks above the root.
+(`OK()` does not test up-closedness; `Inv.upClosed` is the invariant that excludes it.) -/
+theorem rebalance_walk_needs_used_ancestors : ¬ WalkSpec := walkSpec_false
+
+/-- the root IS within its thresholds whenever `rebalance` is reached: after the density test of
+`insert_precise_aux` (with or without `rebuild_bigger_tree`) and of `erase` (with or without
+`rebuild_smaller_tree`), for trees of at least 7 slots (3-slot trees return at once). -/
+theorem root_within_thresholds (md size rs : Nat) :
+    (7 ≤ rs → densityOK size rs = true → insertRebuilds size rs = false →
+      rebalanceCond md (size + 1) rs 0 = false) ∧
+    (3 ≤ rs → size ≤ rs → insertRebuilds size rs = true →
+      rebalanceCond md (size + 1) (2 * rs + 1) 0 = false) ∧
+    (7 ≤ rs → 2 ≤ size → densityOK size rs = true → eraseRebuilds size rs = false →
+      rebalanceCond md (size - 1) rs 0 = false) ∧
+    (15 ≤ rs → 2 ≤ size → densityOK size rs = true → eraseRebuilds size rs = true →
+      rebalanceCond md (size - 1) (rs / 2) 0 = false) :=
+  ⟨root_ok_insert md size rs, root_ok_insert_grown md size rs, root_ok_erase md size rs,
+   root_ok_erase_shrunk md size rs⟩
+
+/-! ## 3. `rebalance`, the descents, `insert`, `erase` -/
+
+/-- **`go_down_searching_key`** (CO_Tree.cc:1441) is a correct descent on the in-order layout
+with holes, from any used node whose subtree brackets the key. -/
+theorem go_down_spec : GoDownSpec := goDownSpec
+
+/-- **`rebalance(itr, key, value)` for an insertion** at a used leaf next to which `key` belongs:
+terminates, keeps shape / order / up-closedness, lists `SMap.set toList key value`, returns the
+root of the redistributed subtree, which contains the new pair, is `Balanced`, and outside of
+which nothing changed. -/
+theorem rebalance_spec : RebalanceInsertSpec := rebalanceInsertSpec
+
+/-- **`rebalance(itr, 0, 0)` after a deletion** at the freed slot: same, contents unchanged. -/
+theorem rebalance_erase_spec : RebalanceEraseSpec := rebalanceEraseSpec
+
+/-- **the sinking hole of `erase`** (CO_Tree.cc:551): within `max_depth` steps the freed slot
+reaches a node without used children; freeing it removes exactly the erased pair. -/
+theorem erase_sink_spec : EraseSinkSpec := eraseSinkSpec
+
+/-- **`CO_Tree::insert(key, data)` refines `SMap.set`** on the full tree: for every tree that
+satisfies the invariant `Inv` (shape, `size_`, strictly increasing keys, up-closed, density
+clauses of `OK()`) and for the empty tree, every loop terminates, the result satisfies `Inv`,
+its in-order listing is `SMap.set (toList t) key value`, the returned iterator is on the pair, and
+`(size_, reserved_size)` follow stage 1's `afterInsert` (so `rebuild_bigger_tree` runs exactly when
+`is_greater_than_ratio(size_+1, reserved_size, 91)`). -/
+theorem insert_refines : InsertSpec := insertSpec_of redistSpec biggerSpec goDownSpec
+
+/-- **`CO_Tree::erase(key)` refines `SMap.erase`**: same for erasure; the returned iterator is on
+the successor of `key` (`SMap.next`), `rebuild_smaller_tree` runs exactly when stage 1's
+`eraseRebuilds` says so, erasing the only element gives the empty tree. -/
+theorem erase_spec : EraseSpec := eraseSpec_of goDownSpec eraseSinkSpec rebalanceEraseSpec smallerSpec
+
+/-- map semantics through the laws of stage 1 (`C16.smap_laws`): reading after `insert` / `erase`
+of the full tree -/
+theorem insert_erase_get (t : Tree) (hinv : t.Inv) (hne : 1 ≤ t.size) (key : Nat) (value : Int) :
+    (∃ t' it, insert t key value = some (t', it) ∧ t'.Inv ∧
+      ∀ j, SMap.get t'.toList j = if j = key then value else SMap.get t.toList j) ∧
+    (∃ t' r, erase t key = some (t', r) ∧
+      ∀ j, SMap.get t'.toList j = if j = key then 0 else SMap.get t.toList j) := by
+  obtain ⟨t', it, h1, h2, h3, _⟩ := insert_refines.2 t key value hinv hne
+  obtain ⟨t'', r, e1, _, e3, _⟩ := erase_spec t key hinv hne
+  exact ⟨⟨t', it, h1, h2, fun j => by rw [h3, SMap.get_set]⟩,
+         ⟨t'', r, e1, fun j => by rw [e3, SMap.get_erase]⟩⟩
+
+/-! ## 4. rebuilds and the bulk constructor -/
+
+/-- **`rebuild_bigger_tree`** (CO_Tree.cc:830): slot `p` moves to slot `2p`, the new leaves are
+free; contents, `size_`, up-closedness kept; `reserved_size' = 2·reserved_size + 1`. -/
+theorem rebuild_bigger_keeps : BiggerSpec := biggerSpec
+
+/-- **`rebuild_smaller_tree`** (`init(reserved_size/2)` + `move_data_from`, CO_Tree.cc:1157): the
+stack loop ends within `6·n+1` steps; same contents, half the slots, half/half layout. -/
+theorem rebuild_smaller_keeps : SmallerSpec := smallerSpec
+
+/-- **`CO_Tree(Iterator, n)`** (CO_Tree_templates.hh:30) -/
+theorem bulk_spec : BulkSpec := bulkSpec
+
+/-- the bulk constructor on a strictly increasing non-empty sequence yields a tree that
+satisfies the full invariant and lists exactly that sequence -/
+theorem bulk_valid (l : List (Nat × Int)) (hs : SMap.Sorted l) (hne : l ≠ []) :
+    ∃ t, bulk l = some t ∧ t.Inv ∧ t.toList = l ∧ t.rs = bulkRs l.length := by
+  obtain ⟨t, h1, h2, h3, h4, h5, h6, h7⟩ := bulkSpec l hne
+  refine ⟨t, h1, ⟨h2, by rw [h6, h4], by rw [h5]; exact hs, balancedUpClosedSpec t _ h2 h7, ?_⟩, h5, h3⟩
+  rw [h4, h3]; exact (bulk_density_ok l.length).1
+
+/-! ## 5. connection with stage 1 (`bisect*` on the real array) -/
+
+/-- the `indexes[]` array of a tree with increasing keys satisfies the hypothesis of
+`C16.bisect_in_spec` / `bisect_near_spec` / `bisect_spec`, and its keys are those of the map -/
+theorem inv_bisect_ready (t : Tree) (hinv : t.Inv) :
+    t.toHoleArray.SortedUsed ∧ (∀ k, t.toHoleArray.has k ↔ SMap.stored t.toList k = true) ∧
+    t.toHoleArray.usedKeys = SMap.keys t.toList :=
+  ⟨sortedUsed_of_sorted t hinv.sorted, has_iff_stored t, usedKeys_eq_keys t⟩
+
+/-- `bisect_near` on the array of any valid tree, from any used slot (stage 1 theorem applied to
+the full tree) -/
+theorem bisect_near_on_tree (t : Tree) (hinv : t.Inv) (hint : Nat) (hv : t.toHoleArray.used hint) (key : Nat) :
+    let p := t.toHoleArray.bisectNear hint key
+    t.toHoleArray.used p ∧ (SMap.stored t.toList key = true → t.toHoleArray.key p = key) :=
+  let h := HoleArray.bisectNear_spec t.toHoleArray (sortedUsed_of_sorted t hinv.sorted) hv key
+  ⟨h.1, fun hs => h.2.1 ((has_iff_stored t key).mpr hs)⟩
+
+/-! ## non-vacuity: concrete instances -/
+
+/-- the tree the bulk constructor builds from `1 ↦ 5, 4 ↦ -2, 9 ↦ 0` -/
+def exList : List (Nat × Int) := [(1, 5), (4, -2), (9, 0)]
+example : SMap.Sorted exList := (SMap.sortedB_iff _).mp (by decide)
+/-- hypotheses of `insert_refines` / `erase_spec` / `insert_erase_get` / `inv_bisect_ready` are satisfiable -/
+example : ∃ t, bulk exList = some t ∧ t.Inv ∧ 1 ≤ t.size := by
+  obtain ⟨t, h1, h2, h3, _⟩ := bulk_valid exList ((SMap.sortedB_iff _).mp (by decide)) (by decide)
+  have : t.countRange 1 (t.rs + 1) = 3 := by
+    obtain ⟨t', e1, _, _, _, _, e6, _⟩ := bulkSpec exList (by decide)
+    rw [h1] at e1; cases e1; exact e6
+  exact ⟨t, h1, h2, by rw [← h2.count, this]; omega⟩
+
+/-- 7 slots `_ 10 _ 20 _ 30 _` -/
 def exTree : Tree := ⟨7, 3, 3, #[sentinel, none, some (10, 1), none, some (20, 2), none, some (30, 3), none, sentinel]⟩
-
 example : exTree.okB = true := by decide
-example : (insert exTree 25 5).map (fun r => r.1.toList) = some [(10, 1), (20, 2), (25, 5), (30, 3)] := by decide
+-- non-leaf hint: the pair goes to the free child
+example : (insert exTree 25 5).map (fun r => (r.1.toList, r.2.i)) = some ([(10, 1), (20, 2), (25, 5), (30, 3)], 5) := by decide
+-- compaction of the whole tree with a new pair (15 ↦ 7), then redistribution of the 4 elements
+example : (compactElementsInTheRightmostEnd exTree 7 4 15 7 true).2 = 3 ∧
+    (compactElementsInTheRightmostEnd exTree 7 4 15 7 true).1.listRange 4 8 = [(10, 1), (15, 7), (20, 2), (30, 3)] := by decide
+example : ((redistributeElementsInSubtree (compactElementsInTheRightmostEnd exTree 7 4 15 7 true).1 4 4 4 15 7 false).map
+    (fun s => s.t.cells)) =
+    some #[sentinel, none, some (10, 1), none, some (15, 7), none, some (20, 2), some (30, 3), sentinel] := by decide
+-- the thresholds: depth-1 = 2 of a tree of max_depth 3: 91 + 2*9/2 = 100 %, 38 - 2*37/2 = 1 %
+example : rebalanceCond 3 2 1 2 = true ∧ rebalanceCond 3 2 3 1 = false := by decide
+-- growth 7 → 15 slots at the 7th element, shrink on erase
+example : (bulk [(1, 1), (2, 2), (3, 3), (4, 4), (5, 5), (6, 6)]).bind (fun t => (insert t 7 7).map (fun r => (r.1.rs, r.1.size))) = some (15, 7) := by decide
+example : (erase exTree 20).map (fun r => (r.1.rs, r.1.toList, r.2)) = some (3, [(10, 1), (30, 3)], some 30) := by decide
 
 end C16
